@@ -41,7 +41,8 @@ ASSUMPTIONS = c15.ASSUMPTIONS[:3] + [
 BOUNDS = {
     "quick": c15.BOUNDS["quick"] + " -- restricted to universes where x-2 carries at most one class; 5 resolver kinds; "
     "hash-seed slice: every 40th universe under 3 seeds",
-    "thorough": c15.BOUNDS["thorough"] + "; hash-seed slice: every 25th universe under 3 seeds",
+    "thorough": c15.BOUNDS["thorough"] + " -- restricted to F1, F4, F2 with dependency-free x-1, F3 with x-1 and x-2 using the "
+    "same class; hash-seed slice: every 25th universe under 3 seeds",
 }
 
 U_KINDS = ("upgrade", "upgrade-shallow")
@@ -188,10 +189,8 @@ def check_case(uni, targets, kind, wit=None):
             f"{kind} resolver, targets {' '.join(targets)}: two resolutions of the same input differ: "
             f"{r1['outcome']} {r1['ops']} vs {r2['outcome']} {r2['ops']}"
         )
-    if r1["outcome"] == "crash":
-        # crashes are C15's business; nothing to judge here (reported there), but do not pretend the policy held
-        info["premise"] = "crash"
-        return msgs, info
+    crashed = r1["outcome"] == "crash"
+    how = f"raised in stage {r1['stage']} ({r1['exc']})" if crashed else "failed"
     final = None
     if r1["outcome"] == "ok":
         final, _ = c15.final_state(uni, r1["ops"])
@@ -204,9 +203,9 @@ def check_case(uni, targets, kind, wit=None):
         if want:
             inst_have = {(n, v) for n, v, s, _ in uni["inst"]}
             if final is None:
-                info["tags"].append("U-failed")
+                info["tags"].append("U-crashed" if crashed else "U-failed")
                 msgs.append(
-                    f"{kind} resolver failed for {' '.join(targets)} although a valid final state holding "
+                    f"{kind} resolver {how} for {' '.join(targets)} although a valid final state holding "
                     + ", ".join(f"{c15.CAT}/{h[0]}-{h[1]}" for _, h in want)
                     + " exists"
                 )
@@ -233,8 +232,8 @@ def check_case(uni, targets, kind, wit=None):
         if all(any(c15.ref_match(a, q) for q in inst) for a in atoms):
             info["premise"] = "M-installed"
             if final is None:
-                info["tags"].append("M-failed")
-                msgs.append(f"{kind} resolver failed for {' '.join(targets)} although installed packages match every target")
+                info["tags"].append("M-crashed" if crashed else "M-failed")
+                msgs.append(f"{kind} resolver {how} for {' '.join(targets)} although installed packages match every target")
             else:
                 for t, a in zip(targets, atoms):
                     if not any(q[3] == "inst" and c15.ref_match(a, q) for q in final):
@@ -257,11 +256,14 @@ _fam = {}
 
 
 def family(tier):
-    """C15's families; the quick tier keeps only the universes where x-2 carries at most one dependency class."""
+    """C15's families; the quick tier keeps only the universes where x-2 carries at most one dependency class, the thorough
+    tier keeps F1, F4, F2 with a dependency-free x-1 and F3 where x-1 and x-2 use the same class."""
     if tier not in _fam:
         f = c15.family(tier)
         if tier == "quick":
             f = [e for e in f if len(e[2]) <= 1]
+        else:
+            f = [e for e in f if e[0] in ("F1", "F4") or (e[0] == "F2" and not e[1]) or (e[0] == "F3" and list(e[1]) == list(e[2]))]
         _fam[tier] = f
     return _fam[tier]
 
@@ -419,7 +421,17 @@ def _k_needs_lower_dependency(case):
     return True
 
 
-CLASSIFIERS = {"upgrade-no-retry-of-dependency-version": _k_needs_lower_dependency}
+def _k_construct_typeerror(case):
+    """Constructing the resolver raises TypeError (see C15 resolver-construction-unhashable-filter), so no target is satisfied."""
+    m = case.get("msg", "")
+    tags = case.get("tags") or []
+    return bool(tags) and set(tags) <= {"U-crashed", "M-crashed"} and "stage construct" in m and "TypeError" in m and "MutableContainmentRestriction" in m
+
+
+CLASSIFIERS = {
+    "upgrade-no-retry-of-dependency-version": _k_needs_lower_dependency,
+    "resolver-construction-unhashable-filter": _k_construct_typeerror,
+}
 
 
 def _main():
